@@ -288,6 +288,17 @@ EditSpec(t) ==
   /\ UNCHANGED <<w, fs, clock, jobs, trk, hsh, useHash, gp>>
   /\ Log("EditSpec", [t |-> t])
 
+(* The user renames a target in the workflow file (or removes it and adds it again under another name). gwf keys *)
+(* everything by name: under its new name the target has never been submitted and has no recorded spec; what is  *)
+(* stored under the old name is no longer anybody's (the old job, if alive, goes on in the scheduler).           *)
+Rename(t) ==
+  /\ EnvOK /\ Idle
+  /\ trk' = [trk EXCEPT ![t] = NoJob]
+  /\ hsh' = [hsh EXCEPT ![t] = NoRec]
+  /\ Disturb /\ Bump("env")
+  /\ UNCHANGED <<w, specv, fs, clock, jobs, useHash, gp>>
+  /\ Log("Rename", [t |-> t])
+
 SetUseHash(v) ==
   /\ EnvOK /\ Idle /\ v # useHash
   /\ useHash' = v
@@ -402,6 +413,7 @@ GwfNext ==
 EnvNext ==
   \/ \E f \in Files : (On("EditSource") /\ EditSource(f)) \/ (On("DeleteOutput") /\ DeleteOutput(f))
   \/ On("EditSpec") /\ \E t \in T : EditSpec(t)
+  \/ On("Rename") /\ \E t \in T : Rename(t)
   \/ On("SetUseHash") /\ \E v \in BOOLEAN : SetUseHash(v)
 SchedNext ==
   \E j \in JobIds : JobStart(j) \/ (On("Purge") /\ Purge(j)) \/ JobEnd(j, TRUE, FALSE)
